@@ -87,6 +87,10 @@ def raised_types(repo: Repo, fn: ast.FunctionDef) -> List[Tuple[ast.Raise, str]]
                 out.append((st, "reraise"))
             elif isinstance(e, ast.Call):
                 nm = call_name(e).split(".")[-1]
+                parts = call_name(e).split(".")
+                if len(parts) >= 2 and repo.has_class(parts[-2]) and nm in repo.cls(parts[-2]).methods and \
+                        any(norm(d) == "classmethod" for d in repo.cls(parts[-2]).methods[nm].decorator_list):
+                    nm = parts[-2]        # raise Cls.factory(...): an instance of Cls (alternative constructor)
                 out.append((st, _returned_class(repo, fn, nm) or nm))
             elif isinstance(e, ast.Name) and e.id in local_new:
                 out.append((st, local_new[e.id]))
